@@ -4,7 +4,7 @@
    draft-4 verdict L0, for every oracle and every numeric implementation whose order is total.
    The excluded shapes are exactly where the recorded finding classes live, plus the keywords not proved yet. *)
 From Coq Require Import List ZArith Bool Lia Btauto.
-From Verif Require Import Base.Sx Base.GoVal Schema.Ast Schema.Build Schema.Pipeline Schema.Draft4 Schema.PipelineFacts Schema.PipelineTerm Schema.PipelineQuiet Schema.AgreementData Schema.JsonEq.
+From Verif Require Import Base.Sx Base.GoVal Schema.Ast Schema.Build Schema.Pipeline Schema.Draft4 Schema.PipelineFacts Schema.PipelineTerm Schema.PipelineTermRec Schema.PipelineQuiet Schema.AgreementData Schema.JsonEq.
 Import ListNotations.
 Open Scope Z_scope.
 
@@ -247,9 +247,21 @@ Variable recd : schema -> goval -> option bool.
 (* no IMPORTANT! error comes back from a sub-validator on this data (discharged by PipelineQuiet.no_important_error) *)
 Hypothesis Hquiet : forall c p q d, jd d -> oquiet (rec_sp c p q d).
 
+(* the data on which the sub-validators are known to agree: parts of the current value (Ds) for the sub-schemas that descend
+   into it, the current value itself (Du) for those that keep it. With both trivial this is agreement on all data (schemas of
+   bounded nesting); with depth bounds it carries the induction for recursive definitions. *)
+Variable Ds Du : goval -> Prop.
+
 (* the two recursions agree on a sub-schema: L1 returns a result, L0 a verdict, and they are the same verdict *)
-Definition goodc (c : schema) : Prop :=
-  forall p q d, jd d -> exists r, rec_sp c p q d = Ok r /\ recd c d = Some (r_valid r).
+Definition goodD (D : goval -> Prop) (c : schema) : Prop :=
+  forall p q d, jd d -> D d -> exists r, rec_sp c p q d = Ok r /\ recd c d = Some (r_valid r).
+Notation goods := (goodD Ds).
+Notation goodu := (goodD Du).
+Definition jds (d : goval) : Prop := jd d /\ Ds d.
+Definition subm (m : list (str * goval)) : Prop := Forall (fun kv => Ds (snd kv)) m.
+
+Lemma jds_jd l : Forall jds l -> Forall jd l.
+Proof. intros H. eapply Forall_impl; [|exact H]. intros a [Ha _]. exact Ha. Qed.
 
 Lemma all_opt_some_forallb' {A} (f : A -> option bool) (g : A -> bool) l :
   (forall x, In x l -> f x = Some (g x)) -> all_opt (map f l) = Some (forallb g l).
@@ -262,12 +274,12 @@ Lemma all_opt_cons_some b l : all_opt (Some b :: l) = match all_opt l with Some 
 Proof. reflexivity. Qed.
 
 (* items: one schema for every element *)
-Lemma items_one_agree s1 p sl : goodc s1 -> forall l, Forall jd l -> forall i r,
+Lemma items_one_agree s1 p sl : goods s1 -> forall l, Forall jds l -> forall i r,
   exists r' b, slice_items_one rec_sp s1 p sl l i r = Ok r' /\ all_opt (map (recd s1) l) = Some b /\ r_valid r' = r_valid r && b.
 Proof.
   intros Hg l Hl. induction Hl as [|v t Hv Ht IH]; intros i r.
   - exists r, true. cbn. rewrite andb_true_r. auto.
-  - cbn [slice_items_one map]. destruct (Hg p (p ++ [SIdx i]) v Hv) as [x [Hx Hd]]. rewrite Hx. cbn [bind].
+  - cbn [slice_items_one map]. destruct (Hg p (p ++ [SIdx i]) v (proj1 Hv) (proj2 Hv)) as [x [Hx Hd]]. rewrite Hx. cbn [bind].
     destruct (IH (i + 1) (merge_for_slice r sl i x)) as [r' [b [H1 [H2 H3]]]].
     exists r', (r_valid x && b). split; [exact H1|]. split.
     + rewrite Hd, all_opt_cons_some, H2. reflexivity.
@@ -275,7 +287,7 @@ Proof.
 Qed.
 
 (* items: positional schemas *)
-Lemma items_tuple_agree p sl : forall ss, Forall goodc ss -> forall l, Forall jd l -> forall i r,
+Lemma items_tuple_agree p sl : forall ss, Forall goods ss -> forall l, Forall jds l -> forall i r,
   exists r' b, slice_items_tuple rec_sp ss p sl l i r = Ok r' /\
                all_opt (map (fun sv => recd (fst sv) (snd sv)) (combine ss l)) = Some b /\ r_valid r' = r_valid r && b.
 Proof.
@@ -283,7 +295,7 @@ Proof.
   - exists r, true. destruct l; cbn; rewrite andb_true_r; auto.
   - destruct l as [|v t]; [exists r, true; cbn; rewrite andb_true_r; auto|].
     inversion Hs as [|x xs Hg Hgs]; subst. inversion Hl as [|y ys Hv Ht]; subst.
-    cbn [slice_items_tuple combine map fst snd]. unfold rec. destruct (Hg (p ++ [SIdx i]) (p ++ [SIdx i]) v Hv) as [x [Hx Hd]]. rewrite Hx. cbn [bind].
+    cbn [slice_items_tuple combine map fst snd]. unfold rec. destruct (Hg (p ++ [SIdx i]) (p ++ [SIdx i]) v (proj1 Hv) (proj2 Hv)) as [x [Hx Hd]]. rewrite Hx. cbn [bind].
     destruct (IH Hgs t Ht (i + 1) (merge_for_slice r sl i x)) as [r' [b [H1 [H2 H3]]]].
     exists r', (r_valid x && b). split; [exact H1|]. split.
     + rewrite Hd, all_opt_cons_some, H2. reflexivity.
@@ -291,12 +303,12 @@ Proof.
 Qed.
 
 (* additionalItems as a schema *)
-Lemma items_additional_agree sa p sl : goodc sa -> forall rest, Forall jd rest -> forall i r,
+Lemma items_additional_agree sa p sl : goods sa -> forall rest, Forall jds rest -> forall i r,
   exists r' b, slice_additional rec_sp sa p sl rest i r = Ok r' /\ all_opt (map (recd sa) rest) = Some b /\ r_valid r' = r_valid r && b.
 Proof.
   intros Hg rest Hl. induction Hl as [|v t Hv Ht IH]; intros i r.
   - exists r, true. cbn. rewrite andb_true_r. auto.
-  - cbn [slice_additional map]. unfold rec. destruct (Hg (p ++ [SIdx i]) (p ++ [SIdx i]) v Hv) as [x [Hx Hd]]. rewrite Hx. cbn [bind].
+  - cbn [slice_additional map]. unfold rec. destruct (Hg (p ++ [SIdx i]) (p ++ [SIdx i]) v (proj1 Hv) (proj2 Hv)) as [x [Hx Hd]]. rewrite Hx. cbn [bind].
     destruct (IH (i + 1) (merge_for_slice r sl i x)) as [r' [b [H1 [H2 H3]]]].
     exists r', (r_valid x && b). split; [exact H1|]. split.
     + rewrite Hd, all_opt_cons_some, H2. reflexivity.
@@ -312,14 +324,14 @@ Definition array_clean (s : schema) : Prop :=
 Lemma Forall_skipn {A} (P : A -> Prop) n l : Forall P l -> Forall P (skipn n l).
 Proof. revert l; induction n as [|n IH]; intros l H; [exact H|]. destruct l; [constructor|]. inversion H; subst. apply IH. assumption. Qed.
 
-Lemma slice_agree p s id l : kids goodc s -> array_clean s -> Forall jd l ->
+Lemma slice_agree p s id l : kids2 goods goodu s -> array_clean s -> Forall jds l ->
   exists r, slice_validate N rec_sp p s (VArr id l) = Ok r /\ array_ok N recd s (VArr id l) = Some (r_valid r).
 Proof.
   intros [K1 [K2 [K3 _]]] [Hex [Hne Hfa]] Hl. unfold slice_validate, array_ok.
   set (size := Z.of_nat (length l)).
   set (U := s_unique s && unique_items N [] l).
   assert (HU : (if s_unique s then negb (has_dup N l) else true) = negb U).
-  { unfold U. destruct (s_unique s); [|reflexivity]. cbn [andb]. rewrite (unique_items_has_dup fin allow_null allow_arr N Heq_sym l Hl). reflexivity. }
+  { unfold U. destruct (s_unique s); [|reflexivity]. cbn [andb]. rewrite (unique_items_has_dup fin allow_null allow_arr N Heq_sym l (jds_jd l Hl)). reflexivity. }
   rewrite HU.
   assert (Hsizes : forall r3,
     r_valid (r_inc (if U then r_add (match s_max_items s with
@@ -367,7 +379,7 @@ Proof.
           destruct (Z.ltb_spec (Z.of_nat n) (Z.of_nat (length t))), (Z.ltb_spec (Z.succ (Z.of_nat n)) (Z.succ (Z.of_nat (length t)))); try reflexivity; lia. }
       destruct (s_add_items s) as [[allows [sa|]]|] eqn:E3.
       * (* schema *) destruct allows; [|exfalso; apply (Hfa sa); reflexivity]. cbn [negb].
-        destruct (items_additional_agree sa p id (K3 _ _ eq_refl) (skipn (length tuple) l) (Forall_skipn jd _ l Hl) isz r2) as [r3 [b3 [G1 [G2 G3]]]].
+        destruct (items_additional_agree sa p id (K3 _ _ eq_refl) (skipn (length tuple) l) (Forall_skipn jds _ l Hl) isz r2) as [r3 [b3 [G1 [G2 G3]]]].
         destruct (isz <? size) eqn:Els.
         -- rewrite G1. cbn [bind]. eexists. split; [reflexivity|]. rewrite Hsizes, G3, H3, H2, G2. cbn [all_opt r_valid new_res r_errs andb]. f_equal. btauto.
         -- cbn [bind]. eexists. split; [reflexivity|]. rewrite Hsizes, H3, H2.
@@ -399,8 +411,8 @@ Qed.
 
 Definition V (c : schema) (d : goval) : bool := match recd c d with Some b => b | None => true end.
 
-Lemma goodc_V c p q d : goodc c -> jd d -> exists r, rec_sp c p q d = Ok r /\ r_valid r = V c d /\ recd c d = Some (V c d).
-Proof. intros Hg Hd. destruct (Hg p q d Hd) as [r [H1 H2]]. exists r. unfold V. rewrite H2. auto. Qed.
+Lemma goodc_V D c p q d : goodD D c -> jd d -> D d -> exists r, rec_sp c p q d = Ok r /\ r_valid r = V c d /\ recd c d = Some (V c d).
+Proof. intros Hg Hd HD. destruct (Hg p q d Hd HD) as [r [H1 H2]]. exists r. unfold V. rewrite H2. auto. Qed.
 
 Lemma lookup_val_member m k : lookup_val m k = lookup_member m k.
 Proof. induction m as [|[k' v] t IH]; [reflexivity|]. cbn [lookup_val lookup_member]. rewrite IH. reflexivity. Qed.
@@ -491,19 +503,19 @@ Proof.
 Qed.
 
 (* L1: the loop over the members of the object *)
-Lemma dependencies_agree s p d all : kids goodc s -> jd d -> forall m main,
+Lemma dependencies_agree s p d all : kids2 goods goodu s -> jd d -> Du d -> forall m main,
   exists main', dependencies rec_sp s p d m all main = Ok main' /\
                 r_valid main' = r_valid main &&
                 forallb (fun kv => match find_dep (s_deps s) (fst kv) with Some dep => dep_verdict d all dep | None => true end) m.
 Proof.
-  intros [_ [_ [_ [_ [_ [_ [_ [_ [_ [_ Kd]]]]]]]]]] Hd. induction m as [|[key v] t IH]; intros main; [exists main; cbn; rewrite andb_true_r; auto|].
+  intros [_ [_ [_ [_ [_ [_ [_ [_ [_ [_ Kd]]]]]]]]]] Hd HDu. induction m as [|[key v] t IH]; intros main; [exists main; cbn; rewrite andb_true_r; auto|].
   cbn [dependencies forallb fst].
   rewrite (find_inline key (s_deps s)).
   destruct (find_dep (s_deps s) key) as [[[ds|] props]|] eqn:E.
-  - assert (Hg : goodc ds).
+  - assert (Hg : goodu ds).
     { clear - E Kd. induction Kd as [|[k dep] l Hk Hl IHl]; [discriminate|]. cbn [find_dep] in E.
       destruct (Z.eqb k key); [inversion E; subst; apply Hk; reflexivity | apply IHl; exact E]. }
-    unfold rec. destruct (goodc_V ds (p ++ [SDot key]) (p ++ [SDot key]) d Hg Hd) as [x [Hx [Hv _]]]. rewrite Hx. cbn [bind].
+    unfold rec. destruct (goodc_V Du ds (p ++ [SDot key]) (p ++ [SDot key]) d Hg Hd HDu) as [x [Hx [Hv _]]]. rewrite Hx. cbn [bind].
     destruct (IH (merge main (Some x))) as [main' [H1 H2]]. exists main'. split; [exact H1|].
     rewrite H2, r_valid_merge, Hv. unfold dep_verdict. cbn [fst]. btauto.
   - destruct (IH (r_add main (flat_map (fun dk => match lookup_val all dk with Some _ => [] | None => [mkMsg C_DEPENDENCY p [dk]] end) props)))
@@ -517,7 +529,7 @@ Proof.
 Qed.
 
 (* L0: the list of dependencies *)
-Lemma deps_L0 s id m : kids goodc s -> jd (VObj id m) ->
+Lemma deps_L0 s id m : kids2 goods goodu s -> jd (VObj id m) -> Du (VObj id m) ->
   all_opt (map (fun dep : str * (option schema * list str) =>
                   let '(k, (ds, props)) := dep in
                   match lookup_member m k with
@@ -528,11 +540,11 @@ Lemma deps_L0 s id m : kids goodc s -> jd (VObj id m) ->
                               end
                   end) (s_deps s)) = Some (deps_verdict s (VObj id m)).
 Proof.
-  intros [_ [_ [_ [_ [_ [_ [_ [_ [_ [_ Kd]]]]]]]]]] Hd. unfold deps_verdict. apply all_opt_some_forallb'.
+  intros [_ [_ [_ [_ [_ [_ [_ [_ [_ [_ Kd]]]]]]]]]] Hd HDu. unfold deps_verdict. apply all_opt_some_forallb'.
   intros [k [ds props]] Hin. cbn [fst snd]. unfold present, dep_verdict. cbn [fst snd].
   destruct (lookup_member m k); [|reflexivity]. destruct ds as [c|]; [|reflexivity].
-  assert (Hg : goodc c) by (apply (proj1 (Forall_forall _ _) Kd (k, (Some c, props)) Hin); reflexivity).
-  destruct (goodc_V c [] [] (VObj id m) Hg Hd) as [_ [_ [_ Hr]]]. exact Hr.
+  assert (Hg : goodu c) by (apply (proj1 (Forall_forall _ _) Kd (k, (Some c, props)) Hin); reflexivity).
+  destruct (goodc_V Du c [] [] (VObj id m) Hg Hd HDu) as [_ [_ [_ Hr]]]. exact Hr.
 Qed.
 
 (* ------------------------------------------------------------------ allOf / anyOf / not *)
@@ -540,24 +552,24 @@ Qed.
 Lemma keep_relevant_valid x : r_valid x = true -> r_valid (keep_relevant x) = true.
 Proof. intros H. apply r_valid_nil in H. unfold keep_relevant, r_valid. cbn [r_errs]. rewrite H. reflexivity. Qed.
 
-Lemma count_true_goodc d : jd d -> forall vs, Forall goodc vs ->
+Lemma count_true_goodc d : jd d -> Du d -> forall vs, Forall goodu vs ->
   exists c, count_true (map (fun c => recd c d) vs) = Some c /\ 0 <= c.
 Proof.
-  intros Hd vs Hvs. induction Hvs as [|s1 t Hg Ht [c [Hc Hpos]]]; [exists 0; split; [reflexivity | lia]|].
-  destruct (Hg [] [] d Hd) as [x [_ Hx]]. cbn [map count_true]. rewrite Hx, Hc.
+  intros Hd HDu vs Hvs. induction Hvs as [|s1 t Hg Ht [c [Hc Hpos]]]; [exists 0; split; [reflexivity | lia]|].
+  destruct (Hg [] [] d Hd HDu) as [x [_ Hx]]. cbn [map count_true]. rewrite Hx, Hc.
   destruct (r_valid x); eexists; split; try reflexivity; lia.
 Qed.
 
-Lemma any_of_agree p d : jd d -> forall vs, Forall goodc vs -> forall main keep best,
+Lemma any_of_agree p d : jd d -> Du d -> forall vs, Forall goodu vs -> forall main keep best,
   exists mk c, any_of rec_sp vs p d main keep best = Ok mk /\
                count_true (map (fun c => recd c d) vs) = Some c /\
                r_valid (fst mk) && r_valid (snd mk) = r_valid main && (0 <? c).
 Proof.
-  intros Hd vs Hvs. induction Hvs as [|s1 t Hg Ht IH]; intros main keep best.
+  intros Hd HDu vs Hvs. induction Hvs as [|s1 t Hg Ht IH]; intros main keep best.
   - eexists. exists 0. cbn [any_of map count_true]. split; [reflexivity|]. split; [reflexivity|]. cbn [fst snd].
     rewrite r_valid_merge, r_valid_add. cbn [Z.ltb Z.compare]. rewrite !andb_false_r. reflexivity.
-  - cbn [any_of map count_true]. unfold rec. destruct (Hg p p d Hd) as [x [Hx Hdx]]. rewrite Hx, Hdx. cbn [bind].
-    destruct (count_true_goodc d Hd t Ht) as [c [Hc Hpos]].
+  - cbn [any_of map count_true]. unfold rec. destruct (Hg p p d Hd HDu) as [x [Hx Hdx]]. rewrite Hx, Hdx. cbn [bind].
+    destruct (count_true_goodc d Hd HDu t Ht) as [c [Hc Hpos]].
     destruct (r_valid x) eqn:Ev.
     + eexists. exists (c + 1). rewrite Hc. split; [reflexivity|]. split; [reflexivity|]. cbn [fst snd].
       rewrite r_valid_merge, Ev. cbn [r_valid new_res r_errs]. replace (0 <? c + 1) with true by (symmetry; apply Z.ltb_lt; lia). btauto.
@@ -570,15 +582,15 @@ Proof.
         exists mk', c0'; (split; [exact H1 | split; [exact H2 | exact H3]]).
 Qed.
 
-Lemma all_of_agree p d : jd d -> forall vs, Forall goodc vs -> forall main keep validated,
+Lemma all_of_agree p d : jd d -> Du d -> forall vs, Forall goodu vs -> forall main keep validated,
   exists main' keep' validated' b, all_of rec_sp vs p d main keep validated = Ok (main', keep', validated') /\
     all_opt (map (fun c => recd c d) vs) = Some b /\
     r_valid main' = r_valid main && b /\
     (b = true -> r_valid keep' = r_valid keep /\ validated' = validated + Z.of_nat (length vs)).
 Proof.
-  intros Hd vs Hvs. induction Hvs as [|s1 t Hg Ht IH]; intros main keep validated.
+  intros Hd HDu vs Hvs. induction Hvs as [|s1 t Hg Ht IH]; intros main keep validated.
   - exists main, keep, validated, true. cbn. rewrite andb_true_r, Z.add_0_r. auto.
-  - cbn [all_of map]. unfold rec. destruct (Hg p p d Hd) as [x [Hx Hdx]]. rewrite Hx, Hdx. cbn [bind].
+  - cbn [all_of map]. unfold rec. destruct (Hg p p d Hd HDu) as [x [Hx Hdx]]. rewrite Hx, Hdx. cbn [bind].
     destruct (IH (merge main (Some x)) (merge keep (Some (keep_relevant x))) (if r_valid x then validated + 1 else validated))
       as [main' [keep' [validated' [b [H1 [H2 [H3 H4]]]]]]].
     exists main', keep', validated', (r_valid x && b). split; [exact H1|]. split; [rewrite all_opt_cons_some, H2; reflexivity|].
@@ -590,16 +602,16 @@ Qed.
 
 (* oneOf: the number of alternatives the code counts as validated is the number draft 4 counts; what is kept aside of the
    failed alternatives (keepRelevantErrors) is empty on this data *)
-Lemma one_of_agree p d : jd d -> forall vs, Forall goodc vs -> forall keep first best validated,
+Lemma one_of_agree p d : jd d -> Du d -> forall vs, Forall goodu vs -> forall keep first best validated,
   r_valid keep = true -> (forall f, first = Some f -> r_valid f = true) ->
   exists first' best' keep' c,
     one_of rec_sp vs p d keep first best validated = Ok (first', best', validated + c, keep') /\
     count_true (map (fun c => recd c d) vs) = Some c /\ 0 <= c /\
     r_valid keep' = true /\ (forall f, first' = Some f -> r_valid f = true).
 Proof.
-  intros Hd vs Hvs. induction Hvs as [|s1 t Hg Ht IH]; intros keep first best validated Hk Hf.
+  intros Hd HDu vs Hvs. induction Hvs as [|s1 t Hg Ht IH]; intros keep first best validated Hk Hf.
   - exists first, best, keep, 0. cbn [one_of map count_true]. rewrite Z.add_0_r. repeat split; auto. lia.
-  - cbn [one_of map count_true]. unfold rec. destruct (Hg p p d Hd) as [x [Hx Hdx]]. rewrite Hx, Hdx. cbn [bind].
+  - cbn [one_of map count_true]. unfold rec. destruct (Hg p p d Hd HDu) as [x [Hx Hdx]]. rewrite Hx, Hdx. cbn [bind].
     pose proof (Hquiet s1 p p d Hd) as Hq. rewrite Hx in Hq. unfold oquiet in Hq.
     assert (Hk' : r_valid (merge keep (Some (keep_relevant x))) = true) by (rewrite r_valid_merge, Hk, (res_quiet_keep x Hq); reflexivity).
     destruct (r_valid x) eqn:Ev.
@@ -619,10 +631,10 @@ Qed.
 
 Definition comp_clean (s : schema) : Prop := NoDup (map fst (s_deps s)).
 
-Lemma props_agree p s d : kids goodc s -> comp_clean s -> jd d ->
+Lemma props_agree p s d : kids2 goods goodu s -> comp_clean s -> jd d -> Du d ->
   exists r bc, props_validate rec_sp p s d = Ok r /\ composition_ok recd s d = Some bc /\ r_valid r = bc && deps_verdict s d.
 Proof.
-  intros K Hdeps Hd. unfold comp_clean in Hdeps. pose proof K as [_ [_ [_ [_ [_ [_ [Kall [Kany [Kone [Knot _]]]]]]]]]].
+  intros K Hdeps Hd HDu. unfold comp_clean in Hdeps. pose proof K as [_ [_ [_ [_ [_ [_ [Kall [Kany [Kone [Knot _]]]]]]]]]].
   unfold props_validate, composition_ok. cbv zeta.
   (* anyOf *)
   assert (Hany : exists a bany, (match s_any_of s with
@@ -635,7 +647,7 @@ Proof.
                   end) = Some bany /\
                  r_valid (fst a) && (match snd a with Some k => r_valid k | None => true end) = bany).
   { destruct (s_any_of s) as [|v0 vt] eqn:E; [exists (new_res, None), true; auto|].
-    destruct (any_of_agree p d Hd (v0 :: vt) Kany new_res new_res None) as [mk [c [H1 [H2 H3]]]].
+    destruct (any_of_agree p d Hd HDu (v0 :: vt) Kany new_res new_res None) as [mk [c [H1 [H2 H3]]]].
     rewrite H1, H2. cbn [bind]. exists (fst mk, Some (snd mk)), (0 <? c). cbn [fst snd]. rewrite H3. auto. }
   destruct Hany as [[main1 keep_any] [bany [Ha [Hda Hva]]]]. rewrite Ha, Hda. cbn [bind fst snd] in *.
   (* oneOf *)
@@ -654,7 +666,7 @@ Proof.
                   end) = Some bone /\
                  r_valid (fst b) && (match snd b with Some k => r_valid k | None => true end) = r_valid main1 && bone).
   { destruct (s_one_of s) as [|v0 vt] eqn:E; [exists (main1, None), true; cbn; rewrite !andb_true_r; auto|].
-    destruct (one_of_agree p d Hd (v0 :: vt) Kone new_res None None 0 eq_refl) as [f' [b' [k' [c [H1 [H2 [H3 [H4 H5]]]]]]]]; [intros f E0; discriminate|].
+    destruct (one_of_agree p d Hd HDu (v0 :: vt) Kone new_res None None 0 eq_refl) as [f' [b' [k' [c [H1 [H2 [H3 [H4 H5]]]]]]]]; [intros f E0; discriminate|].
     rewrite H1, H2. cbn [bind]. rewrite Z.add_0_l. eexists. exists (Z.eqb c 1). split; [reflexivity|]. split; [reflexivity|]. cbn [fst snd]. rewrite H4, andb_true_r.
     destruct (Z.eqb_spec c 0) as [e0|n0].
     - subst c. cbn [Z.eqb]. rewrite r_valid_merge, r_valid_add, !andb_false_r. reflexivity.
@@ -674,7 +686,7 @@ Proof.
                  all_opt (map (fun c => recd c d) (s_all_of s)) = Some ball /\
                  r_valid (fst cc) && (match snd cc with Some k => r_valid k | None => true end) = r_valid main2 && ball).
   { destruct (s_all_of s) as [|v0 vt] eqn:E; [exists (main2, None), true; cbn; rewrite !andb_true_r; auto|].
-    destruct (all_of_agree p d Hd (v0 :: vt) Kall main2 new_res 0) as [main' [keep' [validated' [b [H1 [H2 [H3 H4]]]]]]].
+    destruct (all_of_agree p d Hd HDu (v0 :: vt) Kall main2 new_res 0) as [main' [keep' [validated' [b [H1 [H2 [H3 H4]]]]]]].
     cbv zeta. rewrite H1, H2. cbn [bind]. eexists. exists b. split; [reflexivity|]. split; [reflexivity|]. cbn [fst snd].
     destruct b.
     - destruct (H4 eq_refl) as [G1 G2]. rewrite G2, G1. cbn [length]. rewrite Z.add_0_l, Nat2Z.inj_succ.
@@ -695,7 +707,7 @@ Proof.
                  (match s_not s with None => Some true | Some ns => match recd ns d with Some b => Some (negb b) | None => None end end) = Some bnot /\
                  r_valid main4 = r_valid main3 && bnot).
   { destruct (s_not s) as [ns|] eqn:E; [|exists main3, true; rewrite andb_true_r; auto].
-    unfold rec. destruct (Knot ns eq_refl p p d Hd) as [x [Hx Hdx]]. rewrite Hx, Hdx. cbn [bind].
+    unfold rec. destruct (Knot ns eq_refl p p d Hd HDu) as [x [Hx Hdx]]. rewrite Hx, Hdx. cbn [bind].
     eexists. exists (negb (r_valid x)). split; [reflexivity|]. split; [reflexivity|].
     destruct (r_valid x); [rewrite r_valid_add|]; cbn [negb]; btauto. }
   destruct Hnot as [main4 [bnot [Hn [Hdn Hvn]]]]. rewrite Hn, Hdn. cbn [bind].
@@ -707,7 +719,7 @@ Proof.
   { destruct (s_deps s) as [|d0 dt] eqn:Ed.
     - exists main4. split; [reflexivity|]. unfold deps_verdict. rewrite Ed. destruct d; cbn [forallb]; rewrite andb_true_r; reflexivity.
     - destruct d as [| | | | | | | |id m]; try (exists main4; split; [reflexivity | cbn [deps_verdict]; rewrite andb_true_r; reflexivity]).
-      destruct (dependencies_agree s p (VObj id m) m K Hd m main4) as [main5 [G1 G2]]. exists main5. split; [exact G1|].
+      destruct (dependencies_agree s p (VObj id m) m K Hd HDu m main4) as [main5 [G1 G2]]. exists main5. split; [exact G1|].
       rewrite G2. f_equal. unfold deps_verdict. rewrite <- Ed in *. apply jd_obj in Hd. destruct Hd as [_ Hndm].
       apply (swap_deps (dep_verdict (VObj id m) m) (s_deps s) m Hdeps Hndm). }
   destruct Hdep as [main5 [Hm5 Hv5]]. rewrite Hm5. cbn [bind].
@@ -732,7 +744,13 @@ Definition object_clean (s : schema) : Prop :=
   NoDup (map fst (s_props s)) /\
   (forall sa, s_add_props s <> Some (false, Some sa)).
 
-Definition plain_members (m : list (str * goval)) : Prop := Forall (fun kv => plain_key (fst kv) /\ jd (snd kv)) m.
+Definition plain_members (m : list (str * goval)) : Prop := Forall (fun kv => plain_key (fst kv) /\ jds (snd kv)) m.
+
+Lemma plain_members_of m : Forall (fun kv => plain_key (fst kv) /\ jd (snd kv)) m -> subm m -> plain_members m.
+Proof.
+  intros H1 H2. induction H1 as [|kv t [Hk Hj] Ht IH]; [constructor|]. inversion H2 as [|y ys Hy Hys]; subst.
+  constructor; [split; [exact Hk | split; [exact Hj | exact Hy]] | apply IH; exact Hys].
+Qed.
 
 Lemma no_additional_agree s p m : s_pat_props s = [] -> plain_members m -> forall r,
   r_valid (no_additional_properties OR s p m r) = r_valid r && forallb (fun kv => has_prop s (fst kv)) m.
@@ -747,7 +765,7 @@ Qed.
 Definition add_rule (s : schema) (v : goval) : bool :=
   match s_add_props s with Some (_, Some sa) => V sa v | _ => true end.
 
-Lemma additional_agree s p obj m : kids goodc s -> s_pat_props s = [] -> plain_members m -> forall r,
+Lemma additional_agree s p obj m : kids2 goods goodu s -> s_pat_props s = [] -> plain_members m -> forall r,
   exists r', additional_properties OR rec_sp s p obj m r = Ok r' /\
              r_valid r' = r_valid r && forallb (fun kv => has_prop s (fst kv) || add_rule s (snd kv)) m.
 Proof.
@@ -757,7 +775,7 @@ Proof.
   - unfold validate_pattern_property. rewrite Hpp. cbn [bind orb].
     destruct (s_add_props s) as [[a [sa|]]|] eqn:E.
     + assert (Har : add_rule s v = V sa v) by (unfold add_rule; rewrite E; reflexivity).
-      unfold rec. destruct (goodc_V sa (p ++ [SDot k]) (p ++ [SDot k]) v (Ka a sa eq_refl) Hjv) as [x [Hx [Hv _]]]. rewrite Hx. cbn [bind].
+      unfold rec. destruct (goodc_V Ds sa (p ++ [SDot k]) (p ++ [SDot k]) v (Ka a sa eq_refl) (proj1 Hjv) (proj2 Hjv)) as [x [Hx [Hv _]]]. rewrite Hx. cbn [bind].
       destruct (IH (merge_for_field r obj k x)) as [r' [H1 H2]]. exists r'. split; [exact H1|].
       rewrite H2, r_valid_merge_for_field, Hv, Har. btauto.
     + assert (Har : add_rule s v = true) by (unfold add_rule; rewrite E; reflexivity).
@@ -767,7 +785,7 @@ Proof.
 Qed.
 
 Lemma properties_agree p obj m : plain_members m -> forall props,
-  Forall (fun kc => goodc (snd kc)) props -> forall r created,
+  Forall (fun kc => goods (snd kc)) props -> forall r created,
   exists r' created', properties_schema opt rec_sp props p obj m r created = Ok (r', created') /\
              (forall k, In k created' -> In k created \/ exists ps, In (k, ps) props /\ s_default ps <> None) /\
              r_valid r' = r_valid r && forallb (fun kp => match lookup_val m (fst kp) with Some v => V (snd kp) v | None => true end) props.
@@ -776,10 +794,10 @@ Proof.
   { exists r, created. cbn. rewrite andb_true_r. split; [reflexivity|]. split; [intros k Hk; left; exact Hk | reflexivity]. }
   cbn [properties_schema forallb fst snd]. cbv zeta. cbn [snd] in Hgp.
   destruct (lookup_val m pname) as [v|] eqn:E.
-  - assert (Hjv : jd v).
+  - assert (Hjv : jds v).
     { clear - E Hm. induction Hm as [|[k' v'] t' [_ Hj] Ht' IHm]; [discriminate|]. cbn [lookup_val] in E.
       destruct (Z.eqb pname k'); [inversion E; subst; exact Hj | apply IHm; exact E]. }
-    unfold rec. match goal with |- context [rec_sp ps ?rn ?rn v] => destruct (goodc_V ps rn rn v Hgp Hjv) as [x [Hx [Hv _]]] end.
+    unfold rec. match goal with |- context [rec_sp ps ?rn ?rn v] => destruct (goodc_V Ds ps rn rn v Hgp (proj1 Hjv) (proj2 Hjv)) as [x [Hx [Hv _]]] end.
     rewrite Hx. cbn [bind]. destruct (IH (merge_for_field r obj pname x) created) as [r' [c' [H1 [Hc H2]]]].
     exists r', c'. split; [exact H1|]. split.
     + intros k Hk. destruct (Hc k Hk) as [Hk' | [ps0 [Hin Hd]]]; [left; exact Hk' | right; exists ps0; split; [right; exact Hin | exact Hd]].
@@ -840,11 +858,12 @@ Proof.
   intros y Hy. apply H. right; exact Hy.
 Qed.
 
-Lemma object_agree p s id m : kids goodc s -> object_clean s -> jd (VObj id m) ->
+Lemma object_agree p s id m : kids2 goods goodu s -> object_clean s -> jd (VObj id m) -> Du (VObj id m) -> subm m ->
   exists r, object_validate OR opt rec_sp p s (VObj id m) = Ok r /\
             object_ok OR recd s (VObj id m) = Some (r_valid r && deps_verdict s (VObj id m)).
 Proof.
-  intros K [Hpp [Hdef [Hnd Hfa]]] Hjd. pose proof (deps_L0 s id m K Hjd) as Hdeps. apply jd_obj in Hjd. destruct Hjd as [Hm Hndm].
+  intros K [Hpp [Hdef [Hnd Hfa]]] Hjd HDu Hsub. pose proof (deps_L0 s id m K Hjd HDu) as Hdeps. apply jd_obj in Hjd. destruct Hjd as [Hm0 Hndm].
+  pose proof (plain_members_of m Hm0 Hsub) as Hm.
   pose proof K as [_ [_ [_ [Kp [_ [Ka _]]]]]].
   unfold object_validate, object_ok. cbv zeta. set (n := Z.of_nat (length m)).
   (* the verdict of L0 on the members *)
@@ -867,12 +886,12 @@ Proof.
                                    | _ => []
                                    end))) m) = Some (forallb member_b m)).
   { apply all_opt_some_forallb. intros [k v] Hin. unfold member_b. cbn [fst snd]. rewrite Hpp. cbn [flat_map app].
-    assert (Hjv : jd v) by (apply (proj1 (Forall_forall _ m) Hm (k, v) Hin)).
+    assert (Hjv : jds v) by (apply (proj2 (proj1 (Forall_forall _ m) Hm (k, v) Hin))).
     destruct (lookup_schema (s_props s) k) as [ps|] eqn:E.
-    - assert (Hg : goodc ps) by (apply (lookup_schema_forall goodc _ _ _ Kp E)).
-      destruct (goodc_V ps [] [] v Hg Hjv) as [_ [_ [_ Hr]]]. rewrite Hr. cbn [app]. change (all_opt [Some (V ps v)]) with (Some (V ps v && true)). rewrite andb_true_r. reflexivity.
+    - assert (Hg : goods ps) by (apply (lookup_schema_forall goods _ _ _ Kp E)).
+      destruct (goodc_V Ds ps [] [] v Hg (proj1 Hjv) (proj2 Hjv)) as [_ [_ [_ Hr]]]. rewrite Hr. cbn [app]. change (all_opt [Some (V ps v)]) with (Some (V ps v && true)). rewrite andb_true_r. reflexivity.
     - cbn [app]. destruct (s_add_props s) as [[a [sa|]]|] eqn:Ea.
-      + destruct (goodc_V sa [] [] v (Ka a sa eq_refl) Hjv) as [_ [_ [_ Hr]]]. rewrite Hr. cbn [app]. destruct a; change (all_opt [Some (V sa v)]) with (Some (V sa v && true)); rewrite andb_true_r; reflexivity.
+      + destruct (goodc_V Ds sa [] [] v (Ka a sa eq_refl) (proj1 Hjv) (proj2 Hjv)) as [_ [_ [_ Hr]]]. rewrite Hr. cbn [app]. destruct a; change (all_opt [Some (V sa v)]) with (Some (V sa v && true)); rewrite andb_true_r; reflexivity.
       + destruct a; reflexivity.
       + reflexivity. }
   rewrite Hmem, Hdeps. set (dv := deps_verdict s (VObj id m)).
@@ -935,12 +954,13 @@ Definition local_clean (s : schema) : Prop :=
 Lemma r_valid_r0 s : r_valid (if opt_skip_schemata opt then new_res else mkRes [] 0 [s_default s] [] []) = true.
 Proof. destruct (opt_skip_schemata opt); reflexivity. Qed.
 
-Lemma body_agree s p q d : local_clean s -> kids goodc s -> jd d ->
+Lemma body_agree s p q d : local_clean s -> kids2 goods goodu s -> jd d -> Du d ->
+  (forall id l, d = VArr id l -> Forall Ds l) -> (forall id m, d = VObj id m -> subm m) ->
   exists r, sv_body OR N opt rec_sp s p q d = Ok r /\ d4_body OR N recd s d = Some (r_valid r).
 Proof.
-  intros [Hns [_ [Hfmt [Hnull [Henum [Hpat [Harr [Hobj [Hcomp Hbf]]]]]]]]] K Hd.
+  intros [Hns [_ [Hfmt [Hnull [Henum [Hpat [Harr [Hobj [Hcomp Hbf]]]]]]]]] K Hd HDu HDarr HDobj.
   pose proof (enum_agree p s d Hd Henum) as He.
-  destruct (props_agree p s d K Hcomp Hd) as [x2 [bc [Hx2 [Hc Hvx2]]]].
+  destruct (props_agree p s d K Hcomp Hd HDu) as [x2 [bc [Hx2 [Hc Hvx2]]]].
   unfold sv_body, d4_body. rewrite Hnull in *. rewrite Hc.
   set (r0 := if opt_skip_schemata opt then new_res else mkRes [] 0 [s_default s] [] []).
   assert (Hr0 : r_valid r0 = true) by apply r_valid_r0.
@@ -996,7 +1016,10 @@ Proof.
       change (all_opt [Some a; Some b; Some c; Some true; Some true; Some true; Some e]) with (Some (a && (b && (c && (true && (true && (true && (e && true))))))))
     end. f_equal. btauto.
   - (* array *)
-    apply jd_arr in Hd. destruct Hd as [_ Hd]. destruct (slice_agree p s id l K Harr Hd) as [xs [Hxs Ha]].
+    apply jd_arr in Hd. destruct Hd as [_ Hd].
+    assert (Hds : Forall jds l).
+    { pose proof (HDarr id l eq_refl) as Hs. clear - Hd Hs. induction Hd as [|x t Hx Ht IH]; [constructor|]. inversion Hs; subst. constructor; [split; assumption | apply IH; assumption]. }
+    destruct (slice_agree p s id l K Harr Hds) as [xs [Hxs Ha]].
     cbv beta iota zeta. fold r0. fold r1. rewrite Hx2. cbn [bind is_string_kind is_number_kind is_slice_kind is_map_kind format_applies andb].
     rewrite Hxs. cbn [bind]. eexists. split; [reflexivity|]. rewrite Ha. cbn [numeric_ok string_ok object_ok].
     repeat (rewrite r_valid_inc || rewrite r_valid_merge). rewrite Hr1, He, Hvx2. cbn [deps_verdict].
@@ -1004,7 +1027,7 @@ Proof.
       change (all_opt [Some a; Some b; Some true; Some true; Some c; Some true; Some e]) with (Some (a && (b && (true && (true && (c && (true && (e && true))))))))
     end. f_equal. btauto.
   - (* object *)
-    destruct (object_agree p s id m K Hobj Hd) as [xo [Hxo Ho]].
+    destruct (object_agree p s id m K Hobj Hd HDu (HDobj id m eq_refl)) as [xo [Hxo Ho]].
     cbv beta iota zeta. fold r0. fold r1. rewrite Hx2. cbn [bind is_string_kind is_number_kind is_slice_kind is_map_kind format_applies andb].
     rewrite Hxo. cbn [bind]. eexists. split; [reflexivity|]. rewrite Ho. cbn [numeric_ok string_ok array_ok].
     repeat (rewrite r_valid_inc || rewrite r_valid_merge). rewrite Hr1, He, Hvx2. cbn [deps_verdict].
@@ -1047,8 +1070,11 @@ Proof.
   cbn [sv_validate d4]. rewrite (eager_bounded defs (S n) f s Hb); [|lia]. cbn [bind].
   rewrite (resolve_ref_free defs f s Href). cbn [bind]. rewrite Href.
   apply (body_agree OR N opt Hopt_items Hopt_array Hord Heq_sym (sv_validate OR N opt defs f) (d4 OR N defs f)
-           (fun c p' q' d' Hd' => no_important_error OR N opt defs f c p' q' d' (jd_nohdr d' Hd')) s p q d Hl); [|exact Hd].
-  eapply kids_impl; [|exact K]. intros c Hcc p' q' d' Hd'. apply IH; [exact Hcc | lia | exact Hd'].
+           (fun c p' q' d' Hd' => no_important_error OR N opt defs f c p' q' d' (jd_nohdr d' Hd'))
+           (fun _ => True) (fun _ => True) s p q d Hl); [|exact Hd|exact I| |].
+  - apply (proj1 (kids_kids2 _ s)). eapply kids_impl; [|exact K]. intros c Hcc p' q' d' Hd' _. apply IH; [exact Hcc | lia | exact Hd'].
+  - intros id l _. apply Forall_forall. intros x _. exact I.
+  - intros id m _. apply Forall_forall. intros x _. exact I.
 Qed.
 
 End Whole.
